@@ -1000,7 +1000,7 @@ func (vc *VC) typeAssert(v Term, to types.Type, st *State, pos token.Pos, commaO
 			vc.unsupportedf(pos, "type assertion to interface %v of a different sort", to)
 			return vc.unknown("ta", to), vc.freshOfSort("ok", SBool, nil)
 		}
-		impls := vc.w.implementers(ti, typeKey(to))
+		impls := vc.w.implementers(ti, typeKey(to), to)
 		var alts []Term
 		for _, it := range impls {
 			alts = append(alts, vc.ss.hasTag(v.Sort, v, it))
@@ -1019,7 +1019,9 @@ func (vc *VC) typeAssert(v Term, to types.Type, st *State, pos token.Pos, commaO
 	}
 	val := vc.ss.proj(v.Sort, v, to)
 	if commaOk {
-		val = tIte(ok, val, vc.ss.zero(to))
+		// named, so that the value can occur in quantifier patterns (an `ite`
+		// term cannot)
+		val = vc.define("ta", tIte(ok, val, vc.ss.zero(to)))
 	}
 	return val, ok
 }
@@ -1070,6 +1072,9 @@ func writeExpr(sb *strings.Builder, n ast.Node) {
 				sb.WriteString(", ")
 			}
 			writeExpr(sb, a)
+		}
+		if x.Ellipsis != token.NoPos {
+			sb.WriteString("...")
 		}
 		sb.WriteString(")")
 	case *ast.StarExpr:
